@@ -127,6 +127,12 @@ def run_translators(names=None):
     import importlib
     _coq_private_copy()
     os.makedirs(os.path.join(COQ, "gen"), exist_ok=True)
+    if names is not None:
+        # generated files that must never be staler than the file they certify
+        names = list(names)
+        for a, b in (("t_grammar", "t_grammarcert"),):
+            if a in names and b not in names and os.path.exists(os.path.join(VERIF, "tools", "translate", b + ".py")):
+                names.append(b)
     res = {}
     tdir = os.path.join(VERIF, "tools", "translate")
     for fn in sorted(os.listdir(tdir)):
